@@ -574,26 +574,34 @@ func (d *Document) updateEndnotesFile() {
 
 // addFootnoteRelationship 添加脚注关系
 func (d *Document) addFootnoteRelationship() {
-	relationshipID := fmt.Sprintf("rId%d", len(d.relationships.Relationships)+1)
+	// 脚注部件由主文档部件引用：关系属于 word/_rels/document.xml.rels，
+	// Target 相对于 word/ 目录
+	d.addMainPartRelationship("http://schemas.openxmlformats.org/officeDocument/2006/relationships/footnotes", "footnotes.xml")
+}
 
-	relationship := Relationship{
-		ID:     relationshipID,
-		Type:   "http://schemas.openxmlformats.org/officeDocument/2006/relationships/footnotes",
-		Target: "footnotes.xml",
+// addMainPartRelationship 向主文档部件的关系文件添加一个关系（已存在同类型同目标时不重复添加）
+func (d *Document) addMainPartRelationship(relType, target string) {
+	if d.documentRelationships == nil {
+		d.documentRelationships = &Relationships{
+			Xmlns:         "http://schemas.openxmlformats.org/package/2006/relationships",
+			Relationships: []Relationship{},
+		}
 	}
-	d.relationships.Relationships = append(d.relationships.Relationships, relationship)
+	for _, rel := range d.documentRelationships.Relationships {
+		if rel.Type == relType && rel.Target == target {
+			return
+		}
+	}
+	d.documentRelationships.Relationships = append(d.documentRelationships.Relationships, Relationship{
+		ID:     d.nextDocumentRelationshipID(),
+		Type:   relType,
+		Target: target,
+	})
 }
 
 // addEndnoteRelationship 添加尾注关系
 func (d *Document) addEndnoteRelationship() {
-	relationshipID := fmt.Sprintf("rId%d", len(d.relationships.Relationships)+1)
-
-	relationship := Relationship{
-		ID:     relationshipID,
-		Type:   "http://schemas.openxmlformats.org/officeDocument/2006/relationships/endnotes",
-		Target: "endnotes.xml",
-	}
-	d.relationships.Relationships = append(d.relationships.Relationships, relationship)
+	d.addMainPartRelationship("http://schemas.openxmlformats.org/officeDocument/2006/relationships/endnotes", "endnotes.xml")
 }
 
 // GetFootnoteCount 获取脚注数量
@@ -783,12 +791,5 @@ func (d *Document) saveSettings(settings *Settings) error {
 
 // addSettingsRelationship 添加设置文件关系
 func (d *Document) addSettingsRelationship() {
-	relationshipID := fmt.Sprintf("rId%d", len(d.relationships.Relationships)+1)
-
-	relationship := Relationship{
-		ID:     relationshipID,
-		Type:   "http://schemas.openxmlformats.org/officeDocument/2006/relationships/settings",
-		Target: "word/settings.xml",
-	}
-	d.relationships.Relationships = append(d.relationships.Relationships, relationship)
+	d.addMainPartRelationship("http://schemas.openxmlformats.org/officeDocument/2006/relationships/settings", "settings.xml")
 }
